@@ -415,6 +415,22 @@ func cmdCheck(args []string) int {
 		}
 	}
 	boundedStandins = standins
+	// thorough tier: every bounded search harness that belongs to this property's obligations is also run on the tree as it
+	// is (not only when an obligation fails): a counterexample found this way is a violation of its own. Harnesses that
+	// demonstrate an OPEN known finding are skipped (they would re-report it).
+	if *tier == "thorough" {
+		for _, hs := range runHarnessSweep(prop, pr, known) {
+			if hs["result"] == "violation" {
+				nviol++
+				content := map[string]interface{}{"obligation": "harness:" + fmt.Sprint(hs["harness_run"]), "kind": "bounded-search", "result": "counterexample found on the real code",
+					"failing_input": hs["failing_input"], "harness_pkg": hs["harness_pkg"], "harness_file": hs["harness_file"], "harness_run": hs["harness_run"], "harness_source": hs["harness_source"]}
+				path := writeReplayFile(prop, "harness:"+fmt.Sprint(hs["harness_run"]), content)
+				violLines = append(violLines, fmt.Sprintf("VIOLATION property=%s replay=%s obligation=harness:%s counterexample replayed on the real code", prop, path, hs["harness_run"]))
+			}
+			delete(hs, "harness_source")
+			harnessSweep = append(harnessSweep, hs)
+		}
+	}
 	sort.Strings(knownHit)
 	for _, l := range dedup(knownHit) {
 		fmt.Println(l)
@@ -614,6 +630,9 @@ func writeEvidence(prop, tier string, seed int, pr *PropRun, failures []*Failure
 		cov["slowest_obligations"] = slow
 		if len(boundedStandins) > 0 {
 			cov["bounded_standins"] = boundedStandins
+		}
+		if len(harnessSweep) > 0 {
+			cov["harness_sweep"] = harnessSweep
 		}
 		cov["solve_wall_s"] = solveS
 		cov["load_s"] = pr.loadSecs
@@ -922,6 +941,65 @@ func runBoundedStandins(prop string) []map[string]interface{} {
 			// the harness did not run to completion (the tree does not build, or the function's signature changed)
 			rep["result"] = "violation"
 			rep["failing_input"] = "the bounded harness did not complete: " + tailStr(res, 400)
+		}
+		out = append(out, rep)
+	}
+	return out
+}
+
+var harnessSweep []map[string]interface{}
+
+// runHarnessSweep runs, once each, the search harnesses of /verif/replay/families.json whose pattern matches an obligation of
+// this property run, except those whose obligations are an open known finding.
+func runHarnessSweep(prop string, pr *PropRun, known []KnownFinding) []map[string]interface{} {
+	b, err := os.ReadFile(filepath.Join(verifDir, "replay", "families.json"))
+	if err != nil {
+		return nil
+	}
+	var fams []searchFamily
+	if json.Unmarshal(b, &fams) != nil {
+		return nil
+	}
+	var out []map[string]interface{}
+	done := map[string]bool{}
+	for _, fam := range fams {
+		re, err := regexp.Compile(fam.Match)
+		if err != nil {
+			continue
+		}
+		key := fam.Pkg + "/" + fam.File + "/" + fam.Run
+		if done[key] {
+			continue
+		}
+		matches, knownOnly := false, false
+		for _, o := range pr.obls {
+			if re.MatchString(o.ID) {
+				matches = true
+				if kf := matchesKnown(known, prop, o.ID); kf != nil {
+					knownOnly = true
+				}
+			}
+		}
+		if !matches || knownOnly {
+			continue
+		}
+		done[key] = true
+		src, err := os.ReadFile(filepath.Join(verifDir, "replay", fam.File))
+		if err != nil {
+			continue
+		}
+		t0 := time.Now()
+		res, _ := runGoTest(fam.Pkg, fam.Inject, string(src), fam.Run)
+		rep := map[string]interface{}{"harness_pkg": fam.Pkg, "harness_file": fam.Inject, "harness_run": fam.Run, "from": "/verif/replay/" + fam.File,
+			"label": "BOUNDED search (not proved)", "seconds": time.Since(t0).Seconds(), "harness_source": string(src)}
+		switch {
+		case strings.Contains(res, "CONFIRMED:"):
+			rep["result"] = "violation"
+			rep["failing_input"] = extractLine(res, "CONFIRMED:")
+		case strings.Contains(res, "\nok") || strings.HasPrefix(res, "ok") || strings.Contains(res, "--- PASS"):
+			rep["result"] = "no counterexample within the harness's bound"
+		default:
+			rep["result"] = "harness did not complete (ignored): " + tailStr(res, 300)
 		}
 		out = append(out, rep)
 	}
